@@ -53,20 +53,23 @@ def rule_step(line: int, depth: int, vi: int) -> None:
 
 def p_error_message(tl: int, ll: int, vi: int) -> None:
     """
-    pre: 1 <= tl <= 5 and 1 <= ll <= 5 and 0 <= vi <= 3
+    pre: 1 <= tl <= 5 and 1 <= ll <= 5 and 0 <= vi <= 7
     post: True
     """
     hlib.enter(locals())
     from smartquery.custom_types import Decimal
-    value = ['asd', ')', '+', '12.5'][vi]
-    tok = Tok('NUMBER', Decimal(value), tl, Lexer(ll)) if vi == 3 else Tok('NAME', value, tl, Lexer(ll))
+    vi = hlib.concrete(vi, 0, 7)
+    ttype, value = [('NAME', 'asd'), ('RPAREN', ')'), ('PLUS', '+'), ('NUMBER', '12.5'), ('NEWLINE', ';'), ('STRING', 'a b'),
+                    ('IF', 'if'), ('SHORT_OP', '+=')][vi]
+    tok = Tok(ttype, Decimal(value) if ttype == 'NUMBER' else value, tl, Lexer(ll))
     msg = None
     try:
         rules.p_error(tok)
     except ParserError as e:
         msg = str(e)
     assert msg is not None
-    assert value in msg, "syntax-error message does not name the offending token's text"
+    assert value in msg, "syntax-error message does not name the offending token's text (token type %s)" % ttype
+    assert 'end of input' not in msg.lower(), "an error at a token in the middle of the text is reported as end of input"
     assert ('line %d' % tl) in msg and (tl == ll or ('line %d' % ll) not in msg), \
         "syntax-error message reports the lexer's current line, not the line of the offending token"
     hlib.done()
